@@ -5,6 +5,7 @@ import ast
 import z3
 
 from . import extract
+from . import vals
 from .vals import (V, VNONE, vbool, vint, vstr, fresh, to_term, from_term, sort_of, coerce,
                    parse_type, fresh_name, DATA, OBJ_LAYOUT, deep_copy)
 from .state import State, OutOfSubset, ContractDrift, feasible
@@ -366,6 +367,11 @@ class Registry:
             return self.call_method(eng, st, recv, attr, args, kwargs, node, recv_expr=rexpr)
         if n in eng.bound and eng.bound[n].t[0] == "closure":
             return eng.apply_closure(eng.bound[n], args, st)
+        for env in (eng.bound, st.vars):
+            if n in env and env[n].t[0] == "opaque" and env[n].t[1] in vals.LAM_CAPS and not eng.spec:
+                if kwargs:
+                    raise OutOfSubset("keyword arguments in the application of a stored closure")
+                return eng.apply_lam(env[n], args, st)
         if eng.spec and n in self.defined:
             return [(st, self.defined_app(eng, n, args, st))]
         if eng.spec and n in self.macros:
@@ -539,7 +545,9 @@ class Registry:
         if any(g.is_async for g in gens):
             raise OutOfSubset("async comprehension")
         # try fully concrete
-        first = eng.ev1(gens[0].iter, st)
+        def _is_zip(it):
+            return isinstance(it, ast.Call) and isinstance(it.func, ast.Name) and it.func.id == "zip" and len(it.args) == 2 and not it.keywords
+        first = eng.ev1(gens[0].iter, st) if not (_is_zip(gens[0].iter) and not eng.spec) else V(("zip",), None)
         if first.t[0] in ("list", "tuple") and len(gens) == 1:
             out = []
             saved = dict(eng.bound)
@@ -583,6 +591,27 @@ class Registry:
                         for c in g.ifs:
                             member.append(eng.truth(eng.ev1(c, st)))
                         continue
+                if (isinstance(g.iter, ast.Call) and isinstance(g.iter.func, ast.Name) and g.iter.func.id == "zip" and len(g.iter.args) == 2
+                        and not g.iter.keywords and not eng.spec):
+                    za, zb = (eng.ev1(a_, st) for a_ in g.iter.args)
+                    if za.t[0] == "aseq" and zb.t[0] == "aseq":
+                        zi = eng.bvar(f"c{gi}!zip", ("int",))
+                        consts += self.consts_of(zi)
+                        member.append(z3.And(zi.x >= 0, zi.x < za.x[0], zi.x < zb.x[0]))
+                        self.bind_target(eng, g.target, V(("tuple", (za.t[1], zb.t[1])), (from_term(za.t[1], z3.Select(za.x[1], zi.x)), from_term(zb.t[1], z3.Select(zb.x[1], zi.x)))))
+                        for c in g.ifs:
+                            member.append(eng.truth(eng.ev1(c, st)))
+                        continue
+                    if za.t[0] == "seq" and zb.t[0] == "seq":
+                        # zip(xs, ys) over two sequences: positions 0 .. min(len) - 1, the i-th item is (xs[i], ys[i])
+                        zi = eng.bvar(f"c{gi}!zip", ("int",))
+                        consts += self.consts_of(zi)
+                        member.append(z3.And(zi.x >= 0, zi.x < z3.Length(za.x), zi.x < z3.Length(zb.x)))
+                        self.bind_target(eng, g.target, V(("tuple", (za.t[1], zb.t[1])), (from_term(za.t[1], za.x[zi.x]), from_term(zb.t[1], zb.x[zi.x]))))
+                        for c in g.ifs:
+                            member.append(eng.truth(eng.ev1(c, st)))
+                        continue
+                    raise OutOfSubset(f"zip over {za.t}, {zb.t} in a comprehension (only two sequences are modelled)")
                 coll = first if gi == 0 else eng.ev1(g.iter, st)
                 coll = self.as_membership(eng, coll)
                 et = coll.t[1]
